@@ -105,7 +105,12 @@ func (r *DecoratorResolver) imports(file *ast.File) (map[string]string, error) {
 			}
 			return true
 		case *ast.ImportSpec:
-			path := mustUnquote(node.Path.Value)
+			path, err := strconv.Unquote(node.Path.Value)
+			if err != nil {
+				// malformed import spec (the file had syntax errors) - report it instead of panicking
+				outer = fmt.Errorf("goast.DecoratorResolver found invalid import path %s: %w", node.Path.Value, err)
+				return false
+			}
 			if path == "C" {
 				return false
 			}
